@@ -26,6 +26,10 @@ type CRow struct {
 	S  string  `parquet:",dict"`
 	O  *string `parquet:",optional"`
 	L  []int32
+	// N: values in the first rows, then nulls only (a page holding no value at
+	// all follows a page of values); Z: never a value (every page is all null)
+	N *int64
+	Z *int32
 }
 
 type c13File struct {
@@ -61,6 +65,9 @@ func c13Rows() []CRow {
 		for j := 0; j < i%3; j++ {
 			rows[i].L = append(rows[i].L, int32(i*100+j))
 		}
+		if i < 6 {
+			rows[i].N = ptrTo(int64(i) << 33)
+		}
 	}
 	return rows
 }
@@ -70,7 +77,14 @@ func crowString(r CRow) string {
 	if r.O != nil {
 		o = *r.O
 	}
-	return fmt.Sprintf("%d|%s|%s|%v", r.ID, r.S, o, r.L)
+	n, z := "nil", "nil"
+	if r.N != nil {
+		n = fmt.Sprint(*r.N)
+	}
+	if r.Z != nil {
+		z = fmt.Sprint(*r.Z)
+	}
+	return fmt.Sprintf("%d|%s|%s|%v|%s|%s", r.ID, r.S, o, r.L, n, z)
 }
 
 func c13BuildFile(idx int) *c13File {
@@ -149,6 +163,9 @@ func c13BuildFile(idx int) *c13File {
 					di++
 				}
 				if in.CRC == nil {
+					if in.BodyLen == 0 {
+						continue // the dictionary page of a column without values: no body to damage (the CRC-32 of nothing is 0)
+					}
 					panic("page without CRC")
 				}
 				f.pages = append(f.pages, p)
